@@ -97,6 +97,13 @@ class SymCtx(_Base):
             self.require(x < hi if hi_strict else x <= hi, f"{name}.hi")
         return x
 
+    def ghost(self, name, expr):
+        """a ghost name for an expression: a fresh variable defined equal to it (a definitional extension: the variable occurs nowhere in the code, so this restricts
+        nothing).  Later clauses can then talk about the name and leave its definition out of their hypotheses (`using`), which keeps the solver's problem small."""
+        v = sym.SReal(z3.Real(f"ghost!{name}"))
+        self.run.add_fact("ghost", name, sym.lift_bool(v == expr))
+        return v
+
     def integer(self, name, lo=None, hi=None):
         v = z3.Int(name)
         self.run.inputs[name] = v
